@@ -449,10 +449,14 @@ struct Gapped {
     /// the step to repeat if it times out on a stalled stream
     last: Option<Step>,
     retries: usize,
+    ping_retries: usize,
     /// indices (into log.ops) of calls that timed out on a stalled stream
     pub noise: Vec<usize>,
     pub gates: usize,
     gate_pct: u32,
+    /// keep-alive mode: every stall outlasts the client's own deadline, and a poll() that only
+    /// reported keep-alive progress while the stream was stalled is repeated as well
+    own_deadline: bool,
 }
 
 impl Driver for Gapped {
@@ -464,21 +468,53 @@ impl Driver for Gapped {
         if let (Some(last), Some(op)) = (&self.last, v.log.ops.last()) {
             let waited = matches!(last, Step::Poll { .. } | Step::Recv { .. });
             let stalled = v.world.events[op.ev_call..].iter().any(|e| matches!(e, Ev::GateHit { .. }));
-            if waited && stalled && op.outcome == Outcome::CallerTimeout && self.retries < 100 {
+            let gave_up = op.outcome == Outcome::CallerTimeout || (self.own_deadline && op.outcome == Outcome::Ok(OkKind::None));
+            if waited && stalled && gave_up && self.retries < 100 {
                 self.retries += 1;
                 self.noise.push(v.log.ops.len() - 1);
                 return Some(last.clone());
             }
+            // keep-alive mode: a poll() whose only progress was keep-alive traffic is repeated, so
+            // that the n-th recorded poll handles the same broker packet whatever the ping schedule
+            if self.own_deadline && waited && op.outcome == Outcome::Ok(OkKind::None) && self.ping_retries < 6 {
+                let w = v.world;
+                let mut ping = false;
+                let mut other = false;
+                for e in &w.events[op.ev_call..] {
+                    match e {
+                        Ev::CPkt { conn, idx } => {
+                            if matches!(w.conns[*conn].out.packets[*idx].pkt, CPacket::PingReq) { ping = true } else { other = true }
+                        }
+                        Ev::Consumed { conn, idx } => {
+                            if matches!(w.conns[*conn].in_pkts[*idx].pkt, Some(crate::refcodec::SPacket::PingResp)) { ping = true } else { other = true }
+                        }
+                        Ev::Delivered { .. } => other = true,
+                        _ => {}
+                    }
+                }
+                if ping && !other {
+                    self.ping_retries += 1;
+                    self.noise.push(v.log.ops.len() - 1);
+                    return Some(last.clone());
+                }
+            }
         }
         self.retries = 0;
+        self.ping_retries = 0;
         let s = self.steps.pop_front()?;
         self.last = Some(s.clone());
-        let gateable = v.has_handle && v.is_connected && !matches!(s, Step::Connect(_) | Step::DropConn | Step::ForgetConn | Step::IntoInner | Step::Broker(BrokerAct::Gate { .. }));
+        let mut gateable = v.has_handle && v.is_connected && !matches!(s, Step::Connect(_) | Step::DropConn | Step::ForgetConn | Step::IntoInner | Step::Broker(BrokerAct::Gate { .. }));
+        if self.own_deadline {
+            // a stall that outlasts the PINGRESP deadline is a dead peer, not fragmentation:
+            // stall only right before the broker sends something and while no ping is outstanding
+            gateable = gateable && v.snap.ping_timeout.is_none() && matches!(s, Step::Broker(BrokerAct::Send(_)));
+        }
         if gateable && self.rng.chance(self.gate_pct, 100) {
             self.gates += 1;
             self.queued.push_back(s);
             let after = *self.rng.pick(&[0usize, 1, 2, 3, 4, 5, 7, 9, 12, 20]);
-            return Some(Step::Broker(BrokerAct::Gate { after, blocks: 1 + self.rng.below(2) as u8 }));
+            let blocks = if self.own_deadline { 2 } else { 1 + self.rng.below(2) as u8 };
+            return Some(Step::Broker(BrokerAct::Gate { after, blocks }));
         }
         Some(s)
     }
@@ -505,6 +541,115 @@ fn c15_profile(r: &mut Rng) -> Profile {
 #[derive(PartialEq, Debug)]
 struct Results(Vec<(&'static str, Outcome)>);
 
+/// C15, keep-alive on: the inbound stream stalls inside packets for longer than the client's own
+/// keep-alive deadline, so the client itself abandons the read, sends PINGREQ and resumes.
+/// Compared with the run without stalls: delivered messages, results of all requests, and the
+/// outbound packets other than PINGREQ (the ping schedule legitimately depends on time).
+fn keepalive_stalls(rng: &mut Rng, seed: u64, verbose: bool) -> CaseOut {
+    let mut out = CaseOut::default();
+    let mut profile = c15_profile(rng);
+    let ka = *rng.pick(&[1u16, 2, 10]);
+    profile.poll_waits = vec![ka as u64 * 2_000_000];
+    profile.w_bclose = 0;
+    profile.w_bdisc = 0;
+    profile.w_drop = 0;
+    profile.max_conns = 1;
+    profile.w_bpublish = 24;
+    profile.w_poll = 20;
+    profile.w_recv = 0;
+    let cfg = {
+        let mut c = gen_cfg(rng, &profile);
+        c.keepalive = ka;
+        c
+    };
+    let mut g = Gen::new(rng.next(), profile.clone());
+    g.steps_left = rng.range(6, 30);
+    struct Whole<'a>(&'a mut Gen);
+    impl Driver for Whole<'_> {
+        fn next(&mut self, v: &View<'_>) -> Option<Step> {
+            let mut s = self.0.next(v)?;
+            if let Step::Connect(c) = &mut s {
+                c.policy = IoPolicy::default();
+            }
+            Some(s)
+        }
+    }
+    let (plog, _w) = run_case(&cfg, seed, &mut Whole(&mut g), 60);
+    let mut steps = plog.steps.clone();
+    for _ in 0..12 {
+        steps.push(Step::Poll { max_wait: 0, cancel_at: None });
+    }
+    let (alog, aworld) = {
+        let mut d = Gapped { steps: steps.clone().into(), rng: Rng::new(1), queued: VecDeque::new(), last: None, retries: 0, ping_retries: 0, noise: vec![], gates: 0, gate_pct: 0, own_deadline: true };
+        run_case(&cfg, seed, &mut d, steps.len() * 8 + 64)
+    };
+    let summarize = |log: &RunLog, w: &World| {
+        let requests: Vec<(&'static str, Outcome)> = log.ops.iter().filter(|o| !matches!(o.kind, "poll" | "recv" | "drive")).map(|o| (o.kind, o.outcome.clone())).collect();
+        let packets: Vec<Vec<Vec<u8>>> = w.conns.iter().map(|c| c.out.packets.iter().filter(|p| !matches!(p.pkt, CPacket::PingReq)).map(|p| c.out.bytes[p.start..p.end].to_vec()).collect()).collect();
+        let delivered: Vec<MsgRec> = log.msgs.iter().map(|m| MsgRec { op: 0, ..m.clone() }).collect();
+        let errors: Vec<Outcome> = log.ops.iter().filter(|o| matches!(o.outcome, Outcome::Err(_))).map(|o| o.outcome.clone()).collect();
+        (requests, packets, delivered, errors)
+    };
+    let a = summarize(&alog, &aworld.borrow());
+    for k in 0..3 {
+        let mut d = Gapped { steps: steps.clone().into(), rng: Rng::new(rng.next()), queued: VecDeque::new(), last: None, retries: 0, ping_retries: 0, noise: vec![], gates: 0, gate_pct: 50, own_deadline: true };
+        let (blog, bworld) = run_case(&cfg, seed, &mut d, steps.len() * 60 + 64);
+        let bw = bworld.borrow();
+        let b = summarize(&blog, &bw);
+        out.evaluations += 1;
+        // a stall that began while a PINGREQ was unanswered makes the peer look dead: not comparable
+        let mut outstanding = 0i32;
+        let mut dead_peer_stall = false;
+        for e in &bw.events {
+            match e {
+                Ev::CPkt { conn, idx } if matches!(bw.conns[*conn].out.packets[*idx].pkt, CPacket::PingReq) => outstanding += 1,
+                Ev::Consumed { conn, idx } if matches!(bw.conns[*conn].in_pkts[*idx].pkt, Some(crate::refcodec::SPacket::PingResp)) => outstanding -= 1,
+                Ev::GateHit { .. } if outstanding > 0 => dead_peer_stall = true,
+                _ => {}
+            }
+        }
+        if dead_peer_stall {
+            out.count("variants_skipped_stall_while_ping_unanswered", 1);
+            continue;
+        }
+        out.count("twins_compared", 1);
+        let before = out.violations.len();
+        if a.0 != b.0 {
+            let i = a.0.iter().zip(&b.0).position(|(x, y)| x != y).unwrap_or(a.0.len().min(b.0.len()));
+            out.violations.push(viol("C15", format!("C15/keepalive-stall/result-differs/{}", a.0.get(i).map(|x| x.0).unwrap_or("?")), format!("variant {}: request #{} returned {:?}, without stalls {:?}", k, i, b.0.get(i), a.0.get(i))));
+        } else if a.2 != b.2 {
+            out.violations.push(viol("C15", "C15/keepalive-stall/deliveries-differ", format!("variant {}: {} messages delivered, {} without stalls (first difference at #{})", k, b.2.len(), a.2.len(), a.2.iter().zip(&b.2).position(|(x, y)| x != y).unwrap_or(a.2.len().min(b.2.len())))));
+        } else if a.1 != b.1 {
+            out.violations.push(viol("C15", "C15/keepalive-stall/packets-differ", format!("variant {}: outbound packets other than PINGREQ differ from the run without stalls", k)));
+        } else if a.3 != b.3 {
+            out.violations.push(viol("C15", "C15/keepalive-stall/errors-differ", format!("variant {}: errors {:?}, without stalls {:?}", k, b.3, a.3)));
+        }
+        let dropped_by_client = bw.events.windows(2).filter(|w| matches!(w[0], Ev::GateHit { .. })).count();
+        let inside = bw.events.iter().filter(|e| matches!(e, Ev::GateHit { conn, offset } if bw.conns[*conn].in_pkts.iter().any(|p| p.start < *offset && *offset < p.end))).count();
+        let pings = bw.conns.iter().map(|c| c.out.packets.iter().filter(|p| matches!(p.pkt, CPacket::PingReq)).count()).sum::<usize>();
+        out.count("stalls_hit", dropped_by_client as u64);
+        out.count("stalls_inside_a_packet", inside as u64);
+        out.count("pingreqs_sent_during_stalled_runs", pings as u64);
+        if inside > 0 && pings > 0 {
+            out.count("variants_with_split_packets", 1);
+            out.count("keepalive_stall_variants", 1);
+            out.nontrivial.push(hash_of(&(abstract_trace(&blog, &bw), k, inside)));
+        }
+        out.key(format!("policy/keepalive-{}-stalls", ka));
+        if verbose && out.violations.len() > before {
+            println!("=== run without stalls");
+            for l in render(&alog, &aworld.borrow(), 3000) {
+                println!("{}", l);
+            }
+            println!("=== variant {}", k);
+            for l in render(&blog, &bw, 3000) {
+                println!("{}", l);
+            }
+        }
+    }
+    out
+}
+
 impl Check for C15 {
     fn id(&self) -> &'static str {
         "C15"
@@ -522,13 +667,13 @@ impl Check for C15 {
         v
     }
     fn workloads(&self) -> Vec<Workload> {
-        vec![Workload { name: "fragment-twin", quick: 900, thorough: 60_000 }, Workload { name: "exhaustive-chunkings", quick: 60, thorough: 1500 }]
+        vec![Workload { name: "fragment-twin", quick: 900, thorough: 60_000 }, Workload { name: "exhaustive-chunkings", quick: 60, thorough: 1500 }, Workload { name: "stalls-under-keepalive", quick: 400, thorough: 30_000 }]
     }
     fn min_nontrivial(&self, tier: Tier) -> usize {
         if tier == Tier::Quick { 300 } else { 3000 }
     }
     fn required_counters(&self) -> Vec<&'static str> {
-        vec!["twins_compared", "chunkings_enumerated_exhaustively", "variants_with_split_packets", "stalls_inside_a_packet", "calls_repeated_after_a_stall"]
+        vec!["twins_compared", "chunkings_enumerated_exhaustively", "variants_with_split_packets", "stalls_inside_a_packet", "calls_repeated_after_a_stall", "keepalive_stall_variants"]
     }
     fn exhaustive(&self) -> bool {
         true
@@ -536,6 +681,9 @@ impl Check for C15 {
     fn run(&self, workload: usize, seed: u64, _index: u64, tier: Tier, verbose: bool) -> CaseOut {
         let mut out = CaseOut::default();
         let mut rng = Rng::new(seed);
+        if workload == 2 {
+            return keepalive_stalls(&mut rng, seed, verbose);
+        }
         let profile = c15_profile(&mut rng);
         let cfg = {
             let mut c = gen_cfg(&mut rng, &profile);
@@ -639,7 +787,7 @@ impl Check for C15 {
         for (policy, chunks, name) in variants {
             let gapped = name.starts_with("gapped");
             let (blog, bworld, noise) = if gapped {
-                let mut d = Gapped { steps: steps.clone().into(), rng: Rng::new(rng.next()), queued: VecDeque::new(), last: None, retries: 0, noise: vec![], gates: 0, gate_pct: 60 };
+                let mut d = Gapped { steps: steps.clone().into(), rng: Rng::new(rng.next()), queued: VecDeque::new(), last: None, retries: 0, ping_retries: 0, noise: vec![], gates: 0, gate_pct: 60, own_deadline: false };
                 struct WithPolicy<'a>(&'a mut Gapped, IoPolicy);
                 impl Driver for WithPolicy<'_> {
                     fn next(&mut self, v: &View<'_>) -> Option<Step> {
